@@ -597,6 +597,14 @@ theorem C05_steps_findDataSection (s : IS) :
   have := pot_le (R := C05.readCommentIters) s
   exact ⟨r, a, b, by omega⟩
 
+/-- `GetKeyword` (for any delimiter set): ends with fuel `|bytes| + 2`, never un-reads, at most `4·(|bytes| + 1) + 1` steps -/
+theorem C05_steps_getKeyword (delims : List Byte) (s : IS) :
+    ∃ r, getKeyword delims (s.rest.length + 2) s = .ok r ∧ r.s.m ≤ s.m ∧ r.steps ≤ 4 * (s.rest.length + 1) + 1 := by
+  have hm := IS.m_le s
+  obtain ⟨r, a, b, c⟩ := getKeyword_ok 0 delims (s.rest.length + 2) (by omega) s (by omega)
+  have := pot_le (R := 0) s
+  exact ⟨r, a, b, by omega⟩
+
 /-- regenerated facts the file-level budget relies on (not modelled proofs): the comment limit and the error cut-off
 are finite constants of the size the constant `c₂` of the linear bound absorbs, and `PushPastImbedAggr` does not
 recurse on the nesting depth of the input -/
